@@ -275,11 +275,18 @@ def run_base(bi):
                 step = max(1, len(lst) // share)
                 muts.extend(lst[::step])
         md = wd + "-m"
-        for cls, what, ap in muts:
+        for mi, (cls, what, ap) in enumerate(muts):
             shutil.rmtree(md, ignore_errors=True)
             write_base(base, md)
             ap(md)
-            r = emu.emu(build, md)
+            # the emulator's options rotate: default, lint, every model enabled, both.  With -a a model
+            # needs no requirement, so the two corruptions that only take a requirement away are run
+            # without it
+            opts = [[], ["-l"], ["-a"], ["-a", "-l"]][(mi + bi) % 4]
+            if "-a" in opts and (cls == "undeclared-model" or (cls == "meta-removed" and "ovni.require." in what)):
+                opts = [o for o in opts if o != "-a"]
+            what = what + (" [ovniemu %s]" % " ".join(opts) if opts else "")
+            r = emu.emu(build, md, opts)
             if r.timeout:
                 res["inconclusive"] += 1
                 continue
